@@ -411,12 +411,18 @@ pub struct Gen<'r> {
     pub rng: &'r mut Rng,
     pub cfg: GenCfg,
     family: Vec<String>,
+    /// original name of the class block being generated (for names that relate to it)
+    cur_orig: String,
+    /// obfuscated class names used so far in this file
+    used_obf: Vec<String>,
+    /// original name of the previous method entry
+    last_orig_method: String,
 }
 
 impl<'r> Gen<'r> {
     pub fn new(rng: &'r mut Rng, cfg: GenCfg) -> Gen<'r> {
         let family = if cfg.name_family { name_family(rng) } else { vec![] };
-        Gen { rng, cfg, family }
+        Gen { rng, cfg, family, cur_orig: String::new(), used_obf: vec![], last_orig_method: String::new() }
     }
 
     fn num(&mut self) -> u128 {
@@ -504,8 +510,37 @@ impl<'r> Gen<'r> {
             }
         };
         let (ostart, oend) = if self.cfg.hostile { (ostart.map(|_| self.num()), oend.map(|_| self.num())) } else { (ostart, oend) };
-        let orig_class = if self.rng.chance(1, 4) { Some(self.orig_class()).filter(|c| !c.is_empty()) } else { None };
-        let orig = if self.cfg.hostile && self.rng.chance(1, 40) { String::new() } else { self.rng.pick(ORIG_METHODS).to_string() };
+        let orig_class = if self.rng.chance(1, 4) {
+            // names that RELATE to other parts of the file: the enclosing class itself, a class
+            // nested in it, a name used as an obfuscated class name elsewhere in the file
+            let c = match self.rng.below(12) {
+                0 if !self.cur_orig.is_empty() => self.cur_orig.clone(),
+                1 if !self.cur_orig.is_empty() => format!("{}${}", self.cur_orig, self.rng.pick(&["Companion", "1", "Inner"])),
+                2 if !self.used_obf.is_empty() => self.rng.pick(&self.used_obf).clone(),
+                _ => self.orig_class(),
+            };
+            Some(c).filter(|c| !c.is_empty())
+        } else {
+            None
+        };
+        let orig = if self.cfg.hostile && self.rng.chance(1, 40) {
+            String::new()
+        } else {
+            // now and then a name derived from the previous entry's name by a compiler's naming
+            // scheme, or the simple name of the class it is qualified with
+            let prev = self.last_orig_method.clone();
+            let simple = |c: &str| c.rsplit(['.', '$']).next().unwrap_or(c).to_string();
+            match self.rng.below(24) {
+                0 if !prev.is_empty() && !prev.starts_with('<') => format!("lambda${prev}$0"),
+                1 if !prev.is_empty() && !prev.starts_with('<') => format!("{prev}$default"),
+                2 if !prev.is_empty() && !prev.starts_with('<') => format!("{prev}$lambda$1"),
+                3 if orig_class.is_some() => simple(orig_class.as_deref().unwrap()),
+                4 if !self.cur_orig.is_empty() => simple(&self.cur_orig),
+                _ => self.rng.pick(ORIG_METHODS).to_string(),
+            }
+        };
+        let orig = if orig.is_empty() && !self.cfg.hostile { "run".to_string() } else { orig };
+        self.last_orig_method = orig.clone();
         let obf = if self.cfg.hostile && self.rng.chance(1, 40) { String::new() } else { self.rng.pick(OBF_METHODS).to_string() };
         // kept (-keep) members map onto themselves
         let orig = if self.rng.chance(1, 10) && !obf.is_empty() { obf.clone() } else { self.spice(orig) };
@@ -703,9 +738,26 @@ impl<'r> Gen<'r> {
             } else {
                 self.obf_class()
             };
+            // kept (-keep) classes map onto themselves — under a name from the obfuscated pool or
+            // from the original pool; now and then an original name is a name that is used as an
+            // obfuscated class name elsewhere in the file (a library obfuscated twice)
+            let (orig, obf) = match self.rng.below(30) {
+                0..=2 if !obf.is_empty() => (obf.clone(), obf),
+                3 | 4 => {
+                    let o = self.orig_class();
+                    if o.is_empty() {
+                        (self.orig_class(), obf)
+                    } else {
+                        (o.clone(), o)
+                    }
+                }
+                5 | 6 if !used.is_empty() => (self.rng.pick(&used).clone(), obf),
+                _ => (self.orig_class(), obf),
+            };
             used.push(obf.clone());
-            // kept (-keep) classes map onto themselves
-            let orig = if self.rng.chance(1, 10) && !obf.is_empty() { obf.clone() } else { self.orig_class() };
+            self.used_obf = used.clone();
+            self.cur_orig = orig.clone();
+            self.last_orig_method.clear();
             items.push(Item::Class { orig, obf });
             let n = match self.rng.below(6) {
                 0 => 0,
@@ -912,6 +964,45 @@ pub fn ranged_group_ast(rng: &mut Rng, n: usize) -> MapAst {
         oend: Some(7),
         obf: "a".into(),
     }));
+    MapAst { items }
+}
+
+/// Classes and methods whose names run into each other when written without a separator:
+/// ("k.ab", "c") and ("k.a", "bc"), ("k.a.b", "cd") and ("k.a.bc", "d"), ("k$x", "y") and
+/// ("k", "$xy") — each method with `n` entries; of every colliding pair one method is
+/// unambiguous (all entries agree on the original name), the other is not.
+pub fn concat_collision_ast(n: usize) -> MapAst {
+    let pairs: [(&str, &str, bool); 6] =
+        [("k.ab", "c", true), ("k.a", "bc", false), ("k.a.b", "cd", false), ("k.a.bc", "d", true), ("k$x", "y", true), ("k", "$xy", false)];
+    let mut items = vec![];
+    for (ci, (class, method, unambiguous)) in pairs.iter().enumerate() {
+        items.push(Item::Class { orig: format!("com.example.Coll{ci}"), obf: class.to_string() });
+        for i in 0..n {
+            items.push(Item::Method(MethodEntry {
+                start: Some(1 + 2 * i as u128),
+                end: Some(2 + 2 * i as u128),
+                ret: "void".into(),
+                orig_class: None,
+                orig: if *unambiguous || i + 1 < n { format!("same{ci}") } else { "odd".into() },
+                args: "".into(),
+                ostart: Some(100 + i as u128),
+                oend: None,
+                obf: method.to_string(),
+            }));
+        }
+        // a second, small method so that the class has more than one group
+        items.push(Item::Method(MethodEntry {
+            start: None,
+            end: None,
+            ret: "int".into(),
+            orig_class: None,
+            orig: "other".into(),
+            args: "int".into(),
+            ostart: None,
+            oend: None,
+            obf: "zz".into(),
+        }));
+    }
     MapAst { items }
 }
 
